@@ -228,3 +228,11 @@ def _cycles(graph, maxlen):
     for s in nodes:
         dfs(s, s, [s])
     return out
+
+
+FIXTURE_EXPECT = ['relock-mutex', 'write-under-read', 'returns-guard', 'stores-guard', 'cycle:', 'nested-rayon-under']
+
+
+def thorough(res):
+    from .. import engine
+    engine.sensitivity("C08", res)
